@@ -211,6 +211,15 @@ func (v *srv4) resolve(o Op4) Op4 {
 		if !found {
 			o.Req = v.c.Net + 2
 		}
+	case "otherz": // another client's held address when there is one, else no address at all
+		o.HasReq = false
+		for c := 0; c < 4 && !o.HasReq; c++ {
+			if c != o.C {
+				if ip, ok := held(mac4(c).String()); ok {
+					o.Req, o.HasReq = ip, true
+				}
+			}
+		}
 	case "free":
 		if n := len(sn.Available); n > 0 {
 			o.Req = uint32(u32(sn.Available[n-1]))
@@ -370,7 +379,7 @@ func run4(c Case4) vh.Case {
 	guard := true
 	for _, o := range c.Ops {
 		if o.Sym != "" {
-			tags["req:"+o.Sym] = true
+			tags[o.K+"-addr:"+o.Sym] = true
 		}
 		o = v.resolve(o)
 		conc.Ops = append(conc.Ops, o)
@@ -412,11 +421,15 @@ func alphabet4(nc int, full bool) []Op4 {
 			Op4{K: "request", C: c, Sym: "own"},
 			Op4{K: "request", C: c, Sym: "other"},
 			Op4{K: "request", C: c, Sym: "free"},
-			Op4{K: "release", C: c},
+			// RELEASE carries ciaddr: another client's held address when one exists, else 0.0.0.0
+			Op4{K: "release", C: c, Sym: "otherz", UseCi: true},
 			Op4{K: "decline", C: c, Sym: "own"},
 		)
 		if full {
 			a = append(a,
+				Op4{K: "release", C: c, Sym: []string{"own", "free", "out"}[c%3], UseCi: true},
+				Op4{K: "decline", C: c, Sym: "other"},
+				Op4{K: "inform", C: c, Sym: "other", UseCi: true},
 				Op4{K: "discover", C: c, Relay: true, Cid: 1},
 				Op4{K: "request", C: c, Sym: "own", Relay: true, Cid: 1},
 				Op4{K: "request", C: c, Sym: []string{"net", "bcast", "gw"}[c%3]},
@@ -469,11 +482,13 @@ func rand4(r *vh.Rng, maxOps int) Case4 {
 		case x < 52:
 			o.K, o.Sym, o.UseCi = "request", syms[r.Intn(len(syms))], r.Chance(1, 5)
 		case x < 62:
-			o.K = "release"
+			o.K, o.UseCi = "release", true
+			o.Sym = []string{"own", "own", "other", "other", "free", "zero", "net", "bcast", "gw", "out", "none"}[r.Intn(11)]
 		case x < 72:
-			o.K, o.Sym = "decline", []string{"own", "own", "other", "free", "none"}[r.Intn(5)]
+			o.K, o.Sym = "decline", []string{"own", "own", "own", "other", "other", "free", "zero", "net", "gw", "out", "none"}[r.Intn(11)]
 		case x < 75:
-			o.K = "inform"
+			o.K, o.UseCi = "inform", true
+			o.Sym = []string{"own", "other", "free", "zero", "bcast", "out", "none"}[r.Intn(7)]
 		case x < 90:
 			o.K, o.D = "advance", []int{0, 1, lease4 - 1, lease4 + 1, lease4 / 2, 3 * lease4}[r.Intn(6)]
 		default:
@@ -995,7 +1010,7 @@ func main() {
 	r := vh.NewRng(cfg.Seed)
 	// exhaustive part
 	var x4, x6 []vh.Case
-	d4, d6, n4, n6, maxOps := 3, 3, 400, 300, 40
+	d4, d6, n4, n6, maxOps := 3, 3, 250, 200, 30
 	if cfg.Thorough() {
 		d4, d6, n4, n6, maxOps = 4, 4, 1500, 1200, 60
 	}
@@ -1005,12 +1020,12 @@ func main() {
 	_, _ = d4, d6
 	if !cfg.Thorough() {
 		enum4(p4[0], alphabet4(2, false), 3, add4) // 14^3
-		enum4(p4[0], alphabet4(2, true), 2, add4)  // 23^2
+		enum4(p4[0], alphabet4(2, true), 2, add4)  // 29^2
 		enum4(p4[2], alphabet4(2, false), 2, add4)
 		enum6(p6[0], alphabet6(2, false), 3, add6) // 11^3
 		enum6(p6[0], alphabet6(2, true), 2, add6)
 	} else {
-		enum4(p4[0], alphabet4(2, true), 3, add4)  // 23^3
+		enum4(p4[0], alphabet4(2, true), 3, add4)  // 29^3
 		enum4(p4[2], alphabet4(2, false), 3, add4) // 14^3
 		enum4(p4[1], alphabet4(3, false), 3, add4) // 20^3
 		enum6(p6[0], alphabet6(2, true), 3, add6)  // 20^3
